@@ -36,8 +36,8 @@ LEVEL_NOTE = ("trusted: Lean kernel, axioms propext/Classical.choice/Quot.sound 
               "(validated by the correspondence, not proved equal to the Python); float division == exact rational "
               "comparison in take_using_weights for operands < 2^26")
 RULE = ("exhaustive: every list of <= N children over all valid (min<=preferred<=max, max possibly unbounded, weight "
-        "incl. 0) combinations of a small value set x every available size 0..A x HSplit/VSplit (justify, padding 0), "
-        "plus for each list one seeded alignment/padding variant; then seeded random lists of up to 8 children with "
+        "incl. 0) combinations of a small value set x every available size 0..A x HSplit/VSplit (justify, padding 0; "
+        "lists of 3+ children alternate between the two), plus for each list one seeded alignment/padding variant; then seeded random lists of up to 8 children with "
         "unspecified fields, larger sizes/weights, all alignments, int and Dimension paddings, is_done, and "
         "write_to_screen positions; plus direct cases for Dimension(), sum/max_layout_dimensions and "
         "take_using_weights; a case is non-trivial when at least one division has to grow a child")
@@ -541,7 +541,9 @@ def cases(tier, rng):
         yield {"kind": "split", "dir": "h", "align": al, "pad": 1, "children": [], "avails": avails, "done": 0,
                "wp": [1, 2, 4, 5]}
     for i, ch in enumerate(lists):
-        for d in ("h", "v"):
+        # up to 2 children: both split directions; longer lists alternate (the seeded variant below
+        # picks its direction independently)
+        for d in (("h", "v") if len(ch) <= 2 else ("hv"[i % 2],)):
             yield {"kind": "split", "dir": d, "align": 3, "pad": 0, "children": ch, "avails": avails, "done": 0,
                    "wp": None}
         # one seeded variant: alignment, padding, is_done, write position
@@ -552,7 +554,7 @@ def cases(tier, rng):
                "wp": [rng.randrange(3), rng.randrange(3), a if d == "v" else rng.randrange(0, 4),
                       a if d == "h" else rng.randrange(0, 4)]}
     # --- random larger
-    for _ in range(2500 if quick else 60000):
+    for _ in range(2500 if quick else 40000):
         n = rng.choice([0, 1, 2, 3, 4, 5, 8])
         big = rng.randrange(4) == 0
         ch = [rand_spec(rng, big) for _ in range(n)]
